@@ -143,6 +143,12 @@ def call(eng, e, st, fr, k):
     if isinstance(e.func, (ast.Lambda,)):
         return eng.ev(e.func, st, fr, lambda clo, s0: eval_args(
             eng, e, s0, fr, lambda a, kw, s: inline_call(eng, clo, a, kw, s, fr, k, e)))
+    # 7. call of a computed callee (``TABLE[key]["f"](x)``): only through a declared treatment ``call:computed``; the handler gets
+    #    the evaluated callee as first argument
+    if isinstance(e.func, ast.Subscript) and cur is not None and "call:computed" in cur.calls:
+        h = cur.calls["call:computed"]
+        return eng.ev(e.func, st, fr, lambda callee, s0: eval_args(
+            eng, e, s0, fr, lambda a, kw, s: _dispatch_handler(eng, h, "call:computed", [callee] + a, kw, s, fr, k, e)))
     raise Unsupported(f"call of {fname} at line {e.lineno}: no contract, model or declared abstraction")
 
 
@@ -506,6 +512,9 @@ def _isinstance(eng, a, kw, st, fr, k, node):
     if isinstance(v, Ref) and v.kind == "obj":
         cls_name = st.heap[v.base].get("#cls")
         return k(z3.BoolVal(any(n.split(".")[-1] == cls_name for n in names)), st)
+    if isinstance(v, (tuple, list)):
+        # a Python tuple / list held by value
+        return k(z3.BoolVal(any(n in (type(v).__name__, "collections.abc.Sequence") for n in names)), st)
     if isinstance(v, Opq):
         f = z3.Function("isinstance:" + key, V, z3.BoolSort())
         r = f(v.t)
